@@ -299,7 +299,21 @@ async fn c12_case<TC: Configuration>(cx: &mut Cx, cached: bool, batches: &[Vec<(
         let hs2 = hs.clone();
         handles.push(tokio::spawn(TASK.scope(i, async move { run_job::<TC>(d, job, pk2, hs2).await })));
     }
-    drive(&ctl, &mut handles, schedule).await;
+    // schedule entry 8: a minute passes on the clock while everybody stays where they are (a task parked at a storage
+    // operation is a slow storage operation)
+    drive_ex(&ctl, &mut handles, schedule, &|t| {
+        Box::pin(async move {
+            if t == 8 {
+                tokio::time::pause();
+                tokio::time::advance(Duration::from_secs(60)).await;
+                tokio::time::resume();
+                for _ in 0..50 {
+                    tokio::task::yield_now().await;
+                }
+            }
+        })
+    })
+    .await;
     let mut results = vec![];
     for h in handles {
         match tokio::time::timeout(Duration::from_secs(20), h).await {
@@ -314,7 +328,7 @@ async fn c12_case<TC: Configuration>(cx: &mut Cx, cached: bool, batches: &[Vec<(
     let what = format!("[cfg {} cached {} {} publishes schedule {}]", cfg, cached, batches.len(), schedule.iter().map(|x| x.to_string()).collect::<String>());
     cx.note(format!("C12 {} -> {:?}", what, results.iter().map(|r| r.as_ref().map(|e| e.0).map_err(|_| ())).collect::<Vec<_>>()));
     // the protocol model (Sched.v) run under the same schedule must hand out the same epochs
-    cx.emit(format!("c12 {} {} {}", batches.len(), base_epoch, schedule.iter().map(|x| x.to_string()).collect::<String>()), results.iter().map(|r| r.as_ref().map(|e| e.0).unwrap_or(0).to_string()).collect::<Vec<_>>().join(" "));
+    cx.emit(format!("c12 {} {} {}", batches.len(), base_epoch, schedule.iter().filter(|x| **x != 8).map(|x| x.to_string()).collect::<String>()), results.iter().map(|r| r.as_ref().map(|e| e.0).unwrap_or(0).to_string()).collect::<Vec<_>>().join(" "));
     // successful calls that changed the directory, ordered by returned epoch
     let mut ok: Vec<(u64, [u8; 32], usize)> = results.iter().enumerate().filter_map(|(i, r)| r.as_ref().ok().map(|e| (e.0, e.1, i))).collect();
     ok.sort_by_key(|x| x.0);
@@ -744,7 +758,7 @@ async fn c13_poll<TC: Configuration>(cx: &mut Cx) {
 /// flushed the cache must not leave the instance answering (new epoch, old root).  The reader's request is
 /// parked after k storage operations (before or after the operation itself), the writer publishes, the
 /// poller gets its chance, then the reader continues.
-async fn c13_poll_race<TC: Configuration>(cx: &mut Cx, k: usize) {
+async fn c13_poll_race<TC: Configuration>(cx: &mut Cx, k: usize, epoch_hash_request: bool) {
     let cfg = cfg_name::<TC>();
     let (base, labels) = base_history();
     let ctl = Ctl::new(1);
@@ -755,7 +769,10 @@ async fn c13_poll_race<TC: Configuration>(cx: &mut Cx, k: usize) {
         hashes.push(writer.publish(upd(b)).await.unwrap().1);
     }
     let reader = gdir::<TC>(&db, true).await;
-    let _ = reader.get_epoch_hash().await;
+    if !epoch_hash_request {
+        let _ = reader.get_epoch_hash().await;
+    }
+    // (for the epoch-hash request the instance holds nothing but the epoch record - the state right after a flush)
     let pk = HardCodedAkdVRF {}.get_vrf_public_key().await.unwrap().as_bytes().to_vec();
     let (tx, mut rx) = tokio::sync::mpsc::channel(8);
     let rd = reader.clone();
@@ -766,7 +783,13 @@ async fn c13_poll_race<TC: Configuration>(cx: &mut Cx, k: usize) {
     ctl.free_run.store(false, Ordering::SeqCst);
     let rd = reader.clone();
     let l0 = labels[0].clone();
-    let h = tokio::spawn(TASK.scope(0, async move { rd.lookup(AkdLabel(l0)).await.map(|(_, e)| (e.0, e.1)).map_err(|e| format!("{:?}", e)) }));
+    let h = tokio::spawn(TASK.scope(0, async move {
+        if epoch_hash_request {
+            rd.get_epoch_hash().await.map(|e| (e.0, e.1)).map_err(|e| format!("{:?}", e))
+        } else {
+            rd.lookup(AkdLabel(l0)).await.map(|(_, e)| (e.0, e.1)).map_err(|e| format!("{:?}", e))
+        }
+    }));
     // let the request perform k gate passages, then leave it parked
     for _ in 0..k {
         for _ in 0..200 {
@@ -797,7 +820,7 @@ async fn c13_poll_race<TC: Configuration>(cx: &mut Cx, k: usize) {
     }
     cx.stat("c13_poll_race");
     cx.note(format!("C13 poll race cfg {} parked after {} gate passages", cfg, k));
-    let what = format!("[cfg {} change poller racing a request parked after {} storage gate passages]", cfg, k);
+    let what = format!("[cfg {} change poller racing {} parked after {} storage gate passages]", cfg, if epoch_hash_request { "a get_epoch_hash request" } else { "a lookup" }, k);
     if !signalled {
         cx.fail(format!("C13 {}: the poller never signalled epoch {}", what, eh.0));
     }
@@ -846,6 +869,25 @@ pub fn run(seed: u64, tier: u32, which: &str) -> Cx {
             for (i, s) in preempt_schedules(&mut r, 2, 24, n2, true).iter().enumerate() {
                 let cached = i % 2 == 0;
                 if i % 3 == 0 { c12_case::<E>(&mut cx, cached, &[b1.clone(), b2.clone()], s).await } else { c12_case::<W>(&mut cx, cached, &[b1.clone(), b2.clone()], s).await }
+            }
+            // the first publish is slow (a minute passes while it holds the publish lock), the other ones wait
+            for k in [1usize, 3, 6, 10] {
+                for variant in 0..(if tier == 0 { 5 } else { 40 }) {
+                    let mut sch = vec![0usize; k];
+                    sch.push(8);
+                    if variant == 0 {
+                        sch.extend([1, 1, 0, 1, 1, 0, 8, 1, 0, 1]);
+                    } else {
+                        // what the two do afterwards, at random
+                        for _ in 0..(4 + r.below(30)) {
+                            sch.push(if r.chance(1, 12) { 8 } else { r.below(2) as usize });
+                        }
+                    }
+                    sch.extend(vec![0usize; 60]);
+                    sch.extend(vec![1usize; 60]);
+                    c12_case::<W>(&mut cx, (k + variant) % 2 == 0, &[b1.clone(), b2.clone()], &sch).await;
+                    cx.stat("c12_slow_lock_holder");
+                }
             }
             // a reader parked between the database's answer and the cache fill while a publish completes (cold shared cache)
             for k in 1..(if tier == 0 { 12 } else { 40 }) {
@@ -903,7 +945,10 @@ pub fn run(seed: u64, tier: u32, which: &str) -> Cx {
             c13_poll::<W>(&mut cx).await;
             c13_poll::<E>(&mut cx).await;
             for k in 1..(if tier == 0 { 14 } else { 30 }) {
-                if k % 2 == 0 { c13_poll_race::<W>(&mut cx, k).await } else { c13_poll_race::<E>(&mut cx, k).await }
+                if k % 2 == 0 { c13_poll_race::<W>(&mut cx, k, false).await } else { c13_poll_race::<E>(&mut cx, k, false).await }
+                if k <= 4 {
+                    c13_poll_race::<W>(&mut cx, k, true).await;
+                }
             }
         }
     });
